@@ -482,7 +482,9 @@ class SVRP(DepotRef):
         if self.k >= self.T:
             self.why[j] = "technicians_exhausted"
             return "not"
-        b = band(self.techs[self.k] - self.skills[j], 10.0)
+        # skill levels are compared as given (no arithmetic on either side): equality is decidable, and
+        # "greater or equal" is enough by the problem definition
+        b = "must" if self.techs[self.k] >= self.skills[j] else "not"
         if b == "not":
             self.why[j] = "skill"
         return b
@@ -553,7 +555,7 @@ class SVRP(DepotRef):
                 continue
             if k >= self.T:
                 v.append(("technicians_exhausted", float(k - self.T + 1)))
-            elif band(self.techs[k] - self.skills[a], 10.0) == "not":
+            elif self.techs[k] < self.skills[a]:
                 v.append(("skill", self.skills[a] - self.techs[k]))
         return v
 
